@@ -76,6 +76,13 @@ def gen_history(ctx: Ctx, P, M):
     rg_leaves = [i for i in P.leaves() if P.nodes[i].rg]
     nonleaf = differentiable_nonleaves(P)
     ops = []
+    if M is not None and rng.random() < 0.35:
+        # directed history: one mtl_backward that must free the trunk (for every chunk size), then a probe through the trunk
+        shared = sorted(P.reach_leaves(M.features))
+        if shared:
+            ops.append(("mtl", False, rng.choice([1, 2, len(M.losses), None])))
+            ops.append(("grad", rng.choice(M.features), rng.choice(shared), False))
+            return ops
     for _ in range(rng.choice([2, 3, 3])):
         r = rng.random()
         if M is not None and r < 0.45:
